@@ -216,7 +216,7 @@ def main():
         for w in d['witnesses']:
             print(json.dumps(w, indent=1)[:3000])
         return 0
-    n = 150 if a.tier == 'quick' else 800
+    n = 150 if a.tier == 'quick' else 3000
     for r in parallel(worker, [(bindir, i, n) for i in range(16)]):
         rep.merge(r)
     return rep.finish(
